@@ -33,6 +33,31 @@ macro_rules! ok {
 /// drop glue) reachable for the solver.  With the fast path disabled the generic element-wise path moves the same bytes.
 fn typeid_ne(_a: &std::any::TypeId, _b: &std::any::TypeId) -> bool { false }
 
+/// Model of `binrw::helpers::until_eof` (third-party helper behind `#[br(parse_with = until_eof)]`): the same loop, but the
+/// end-of-input error that terminates it is leaked instead of dropped (drop glue of binrw::Error is recursive; CBMC unrolls it
+/// to the unwind bound on every explored path).
+fn until_eof_model<'a, Ret, T, Arg, Reader>(reader: &mut Reader, endian: binrw::Endian, args: Arg) -> binrw::BinResult<Ret>
+where
+    Ret: FromIterator<T>,
+    T: BinRead<Args<'a> = Arg>,
+    Arg: Clone,
+    Reader: Read + Seek,
+{
+    std::iter::from_fn(|| match T::read_options(reader, endian, args.clone()) {
+        Ok(v) => Some(Ok(v)),
+        Err(err) => {
+            if err.is_eof() {
+                std::mem::forget(err);
+                None
+            } else {
+                Some(Err(err))
+            }
+        }
+    })
+    .fuse()
+    .collect()
+}
+
 // ------------------------------------------------------------------ environment: a file-like sink
 /// Write+Seek into `[u8; N]` that, like a file, remembers its extent (`len`) independently of the cursor
 /// (`serialize_to_writer` seeks back to patch MHDR/MCIN and leaves the cursor there).
@@ -341,6 +366,16 @@ bytes_roundtrip!(c14d_rec_chunk_header, ChunkHeader, 8, 8);
 /// nested arrays of 64 so that CBMC keeps every byte as its own symbol (arrays longer than 64 are opaque to its
 /// constant propagation; structural fields - magics, sizes, offsets - then stop folding and every parser error
 /// path becomes reachable for the solver).  Capacity S * 4096 bytes.
+macro_rules! put16 {
+    ($s:expr, $p:expr, $b:expr, $i:expr, $n:expr, $($k:expr),*) => {
+        $( if $i + $k < $n { let q = $p + $k; $s.buf[q >> 12][(q >> 6) & 63][q & 63] = $b[$i + $k]; } )*
+    };
+}
+macro_rules! get16 {
+    ($s:expr, $p:expr, $o:expr, $i:expr, $n:expr, $($k:expr),*) => {
+        $( if $i + $k < $n { $o[$i + $k] = $s.at($p + $k); } )*
+    };
+}
 pub struct Img<const S: usize> {
     pub buf: [[[u8; 64]; 64]; S],
     pub pos: usize,
@@ -375,11 +410,13 @@ impl<const S: usize> Write for Img<S> {
         if self.pos > Self::CAP || n > Self::CAP - self.pos {
             return Err(io::Error::from(io::ErrorKind::WriteZero));
         }
+        // 16 bytes per loop iteration (keeps the unwind bound, and with it the depth to which CBMC unrolls the
+        // recursive drop glue of binrw::Error on explored error paths, small)
         let mut i = 0;
         while i < n {
             let p = self.pos + i;
-            self.buf[p >> 12][(p >> 6) & 63][p & 63] = b[i];
-            i += 1;
+            put16!(self, p, b, i, n, 0, 1, 2, 3, 4, 5, 6, 7, 8, 9, 10, 11, 12, 13, 14, 15);
+            i += 16;
         }
         self.pos += n;
         if self.pos > self.len { self.len = self.pos; }
@@ -394,8 +431,9 @@ impl<const S: usize> Read for Img<S> {
         let n = if out.len() < avail { out.len() } else { avail };
         let mut i = 0;
         while i < n {
-            out[i] = self.at(self.pos + i);
-            i += 1;
+            let p = self.pos + i;
+            get16!(self, p, out, i, n, 0, 1, 2, 3, 4, 5, 6, 7, 8, 9, 10, 11, 12, 13, 14, 15);
+            i += 16;
         }
         self.pos += n;
         Ok(n)
@@ -409,8 +447,9 @@ impl<const S: usize> Read for Img<S> {
         let n = out.len();
         let mut i = 0;
         while i < n {
-            out[i] = self.at(self.pos + i);
-            i += 1;
+            let p = self.pos + i;
+            get16!(self, p, out, i, n, 0, 1, 2, 3, 4, 5, 6, 7, 8, 9, 10, 11, 12, 13, 14, 15);
+            i += 16;
         }
         self.pos += n;
         Ok(())
@@ -506,7 +545,8 @@ fn rewrite_is_stable(out: &Img<1>, d: &McnkChunk) {
 #[kani::proof]
 #[kani::stub(std::fmt::format, vio::fmt_stub)]
 #[kani::stub(std::any::TypeId::eq, typeid_ne)]
-#[kani::unwind(150)]
+#[kani::stub(binrw::helpers::until_eof, until_eof_model)]
+#[kani::unwind(12)]
 fn c14e_mcnk_bare_header() {
     let c = empty_mcnk(header_any());
     let mut out = write_at(&c);
@@ -544,7 +584,8 @@ fn emitter_eq(a: &SoundEmitter, b: &SoundEmitter) -> bool {
 #[kani::proof]
 #[kani::stub(std::fmt::format, vio::fmt_stub)]
 #[kani::stub(std::any::TypeId::eq, typeid_ne)]
-#[kani::unwind(150)]
+#[kani::stub(binrw::helpers::until_eof, until_eof_model)]
+#[kani::unwind(12)]
 fn c14e_mcnk_layers_emitters() {
     let mut c = empty_mcnk(header_any());
     let mut layers = Vec::new();
@@ -579,7 +620,8 @@ fn c14e_mcnk_layers_emitters() {
 #[kani::proof]
 #[kani::stub(std::fmt::format, vio::fmt_stub)]
 #[kani::stub(std::any::TypeId::eq, typeid_ne)]
-#[kani::unwind(150)]
+#[kani::stub(binrw::helpers::until_eof, until_eof_model)]
+#[kani::unwind(12)]
 fn c14e_mcnk_refs() {
     let nd: u32 = kani::any();
     kani::assume(nd <= 2);
@@ -622,7 +664,8 @@ fn concrete_refs_mcnk(n_doodad_refs: u32) -> McnkChunk {
 #[kani::proof]
 #[kani::stub(std::fmt::format, vio::fmt_stub)]
 #[kani::stub(std::any::TypeId::eq, typeid_ne)]
-#[kani::unwind(150)]
+#[kani::stub(binrw::helpers::until_eof, until_eof_model)]
+#[kani::unwind(12)]
 fn c14e_mcnk_refs_rewrite_grows_witness() {
     let c = concrete_refs_mcnk(2);
     let mut out = write_at(&c);
@@ -638,7 +681,8 @@ fn c14e_mcnk_refs_rewrite_grows_witness() {
 #[kani::proof]
 #[kani::stub(std::fmt::format, vio::fmt_stub)]
 #[kani::stub(std::any::TypeId::eq, typeid_ne)]
-#[kani::unwind(150)]
+#[kani::stub(binrw::helpers::until_eof, until_eof_model)]
+#[kani::unwind(12)]
 fn c14e_mcnk_refs_zero_counts_witness() {
     let c = concrete_refs_mcnk(0);
     let mut out = write_at(&c);
@@ -651,7 +695,8 @@ fn c14e_mcnk_refs_zero_counts_witness() {
 #[kani::proof]
 #[kani::stub(std::fmt::format, vio::fmt_stub)]
 #[kani::stub(std::any::TypeId::eq, typeid_ne)]
-#[kani::unwind(150)]
+#[kani::stub(binrw::helpers::until_eof, until_eof_model)]
+#[kani::unwind(66)]
 fn c14e_mcnk_mcdd_dropped_witness() {
     let mut c = empty_mcnk(header_zero());
     c.doodad_disable = Some(crate::chunks::mcnk::McddChunk { disable: [0xFF; 64] });
@@ -701,6 +746,7 @@ fn colors_any() -> MccvChunk {
 #[kani::proof]
 #[kani::stub(std::fmt::format, vio::fmt_stub)]
 #[kani::stub(std::any::TypeId::eq, typeid_ne)]
+#[kani::stub(binrw::helpers::until_eof, until_eof_model)]
 #[kani::unwind(150)]
 fn c14e_mcnk_heights_normals() {
     let mut c = empty_mcnk(header_any());
@@ -733,6 +779,7 @@ fn c14e_mcnk_heights_normals() {
 #[kani::proof]
 #[kani::stub(std::fmt::format, vio::fmt_stub)]
 #[kani::stub(std::any::TypeId::eq, typeid_ne)]
+#[kani::stub(binrw::helpers::until_eof, until_eof_model)]
 #[kani::unwind(150)]
 fn c14e_mcnk_vertex_colors() {
     let mut c = empty_mcnk(header_any());
@@ -759,6 +806,7 @@ fn c14e_mcnk_vertex_colors() {
 #[kani::proof]
 #[kani::stub(std::fmt::format, vio::fmt_stub)]
 #[kani::stub(std::any::TypeId::eq, typeid_ne)]
+#[kani::stub(binrw::helpers::until_eof, until_eof_model)]
 #[kani::unwind(150)]
 fn c14e_mcnk_vertex_colors_flag_witness() {
     let mut c = empty_mcnk(header_zero());
@@ -788,7 +836,8 @@ fn liquid_any() -> MclqChunk {
 #[kani::proof]
 #[kani::stub(std::fmt::format, vio::fmt_stub)]
 #[kani::stub(std::any::TypeId::eq, typeid_ne)]
-#[kani::unwind(150)]
+#[kani::stub(binrw::helpers::until_eof, until_eof_model)]
+#[kani::unwind(84)]
 fn c14e_mcnk_liquid() {
     let mut c = empty_mcnk(header_any());
     c.header.flags.value &= !0x38; // liquid_type Water (flags 0x08/0x10/0x20 select ocean/magma/slime)
@@ -823,7 +872,8 @@ fn c14e_mcnk_liquid() {
 #[kani::proof]
 #[kani::stub(std::fmt::format, vio::fmt_stub)]
 #[kani::stub(std::any::TypeId::eq, typeid_ne)]
-#[kani::unwind(150)]
+#[kani::stub(binrw::helpers::until_eof, until_eof_model)]
+#[kani::unwind(84)]
 fn c14e_mcnk_liquid_last_witness() {
     let mut c = empty_mcnk(header_zero());
     let mut vertices = Vec::with_capacity(81);
@@ -910,12 +960,14 @@ fn mh2o_one_layer(which: usize, with_attrs: bool) {
 #[kani::proof]
 #[kani::stub(std::fmt::format, vio::fmt_stub)]
 #[kani::stub(std::any::TypeId::eq, typeid_ne)]
-#[kani::unwind(3100)]
+#[kani::stub(binrw::helpers::until_eof, until_eof_model)]
+#[kani::unwind(260)]
 fn c14f_mh2o_layer_attrs_chunk0() { mh2o_one_layer(0, true) }
 #[kani::proof]
 #[kani::stub(std::fmt::format, vio::fmt_stub)]
 #[kani::stub(std::any::TypeId::eq, typeid_ne)]
-#[kani::unwind(3100)]
+#[kani::stub(binrw::helpers::until_eof, until_eof_model)]
+#[kani::unwind(260)]
 fn c14f_mh2o_layer_noattrs_chunk2() { mh2o_one_layer(2, false) }
 
 // ================================================================== C14.g whole file: builder -> serialize_to_writer -> discover -> parse_root_adt
@@ -1036,6 +1088,7 @@ fn file_roundtrip(version: AdtVersion, with_bounds: bool) {
     out.pos = 0;
     let disc = ok!(crate::chunk_discovery::discover_chunks(&mut out), "chunk discovery fails on a serialised tile");
     assert!(disc.total_chunks == nchunks && disc.file_size == out.len as u64, "discovery sees a different number of chunks than the reference walker");
+    assert!(crate::file_type::AdtFileType::from_discovery(&disc) == crate::file_type::AdtFileType::Root, "serialised tile is not recognised as a root ADT");
     let detected = AdtVersion::from_discovery(&disc);
     assert!(detected == version, "version detected from the serialised tile differs from the version it was built for");
     let (root, warnings) = ok!(crate::root_parser::parse_root_adt(&mut out, &disc, detected), "serialised tile is rejected by the parser");
@@ -1141,6 +1194,56 @@ fn c14g_file_wotlk_mtxf_witness() {
     let n = match &root.texture_flags { Some(f) => f.flags.len(), None => 0 };
     assert!(n == 1, "texture flags (MTXF) parsed from a serialised tile have more entries than were written (read runs past the chunk into MCNK)");
     std::mem::forget((adt, disc, root, warnings));
+}
+
+/// witness KF-C14-mtxf-unbounded on the smallest file the library's own chunk writers can produce for it:
+/// MVER, MHDR, MTXF (one flag), one MCNK (a split-root style tile: parse_root_adt does not ask for MCIN/MTEX then)
+#[kani::proof]
+#[kani::stub(std::fmt::format, vio::fmt_stub)]
+#[kani::stub(std::any::TypeId::eq, typeid_ne)]
+#[kani::stub(std::hash::RandomState::new, rs_stub)]
+#[kani::stub(binrw::helpers::until_eof, until_eof_model)]
+#[kani::unwind(40)]
+fn c14g_mtxf_read_past_chunk_witness() {
+    let mut out = Img::<1>::new();
+    ok!(write_chunk(&mut out, ChunkId::MVER, &MverChunk { version: 18 }), "write_chunk fails");
+    ok!(write_chunk(&mut out, ChunkId::MHDR, &MhdrChunk::default()), "write_chunk fails");
+    let mut flags = Vec::new();
+    flags.push(7u32);
+    let mtxf = MtxfChunk { flags };
+    ok!(write_chunk(&mut out, ChunkId::MTXF, &mtxf), "write_chunk fails");
+    let c = empty_mcnk(header_zero());
+    ok!(write_mcnk_chunk(&mut out, &c), "write_mcnk_chunk fails");
+    assert!(out.len == 12 + 72 + 12 + 144 && out.walk(0, out.len, 8) == Some(4));
+    out.pos = 0;
+    let disc = ok!(crate::chunk_discovery::discover_chunks(&mut out), "chunk discovery fails");
+    let (root, warnings) = ok!(crate::root_parser::parse_root_adt(&mut out, &disc, AdtVersion::WotLK), "tile is rejected by the parser");
+    let n = match &root.texture_flags { Some(f) => f.flags.len(), None => 0 };
+    assert!(n == 1, "texture flags (MTXF) parsed back have more entries than were written (the read runs past the chunk into the following MCNK)");
+    std::mem::forget((mtxf, c, disc, root, warnings));
+}
+
+// ================================================================== C14.h version detection on the root chunks of a built tile
+/// witness KF-C14-version-detect: the root-level chunks serialize_to_writer documents for a tile without optional
+/// chunks (MVER MHDR MCIN MTEX MMDX MMID MWMO MWID MDDF MODF MCNK - MCCV only ever appears *inside* MCNK) are all the
+/// detector gets to see; the keys it asks for are MCNK, MCIN, MTXP, MAMP, MH2O, MTXF, MFBO, MCCV
+#[kani::proof]
+#[kani::stub(std::fmt::format, vio::fmt_stub)]
+#[kani::stub(std::any::TypeId::eq, typeid_ne)]
+#[kani::stub(std::hash::RandomState::new, rs_stub)]
+#[kani::unwind(12)]
+fn c14h_version_vanilla_late_witness() {
+    use crate::chunk_discovery::ChunkLocation;
+    let mut chunks: std::collections::HashMap<ChunkId, Vec<ChunkLocation>> = std::collections::HashMap::new();
+    let mut a = Vec::new();
+    a.push(ChunkLocation { offset: 84, size: 4096 });
+    chunks.insert(ChunkId::MCIN, a);
+    let mut b = Vec::new();
+    b.push(ChunkLocation { offset: 4369, size: 724 });
+    chunks.insert(ChunkId::MCNK, b);
+    let v = AdtVersion::detect_from_chunks(&chunks);
+    std::mem::forget(chunks);
+    assert!(v == AdtVersion::VanillaLate, "tile built for Vanilla 1.9+ is detected as another version (MCCV is an MCNK sub-chunk, the detector only sees root chunks)");
 }
 
 #[kani::proof]
